@@ -87,6 +87,10 @@ impl NodeDrive {
     }
     pub fn storage_data_disk(db: &Database, reclame_space: bool, db_name: &String) -> u32 {
         let keys_to_update = get_keys_to_update(db, reclame_space);
+        // The metadata (id, strategy) goes first: once the keys and values files of a database
+        // exist its id must be on disk too, otherwise a process killed during the first
+        // snapshot brings the database back under another id than the op-log knows it by
+        write_metadata_file(db_name, db);
         let mut keys_file = get_key_file_append_mode(&db_name, reclame_space);
         let (mut values_file, current_value_file_size) =
             get_values_file_append_mode(&db_name, reclame_space);
@@ -199,7 +203,6 @@ impl NodeDrive {
         keys_file_write.flush().unwrap();
         values_file.flush().unwrap();
 
-        write_metadata_file(db_name, db);
         log::debug!("snapshoted {} keys", changed_keys);
         changed_keys
     }
